@@ -635,7 +635,7 @@ def conc_streams(orc, with_lin=False, with_seq=None):
         if with_lin:
             m = 4000 if q else 300000
             st.append(Stream("free-running", "lin", gens.lin_cases(rng, m), lambda c, o: True, False,
-                             "%d rounds of 2-4 free-running threads, each a random program of 2-5 operations (set / update / set_if_not_eq / get / next_now / poll / read-guard hold with try_write probe / write-guard hold with try_read+try_write probes and guarded sets) on clones of one SharedObservable; invocation/response stamped with a global atomic counter; the recorded history is checked for linearizability against the extracted sequential model (Wing-Gong search), plus set-chain, guard-exclusion and final-value checks" % m,
+                             "%d rounds of 2-4 free-running threads, each a random program of 2-5 operations (set / update / set_if_not_eq / set_if_hash_not_eq / take / update_if / get / subscribe + poll / next_now of the subscribers created in the thread / next_now / poll / read-guard hold with try_write probe / write-guard hold with try_read+try_write probes and guarded sets) on clones of one SharedObservable; invocation/response stamped with a global atomic counter; the recorded history is checked for linearizability against the extracted sequential model (Wing-Gong search), plus set-chain, guard-exclusion and final-value checks" % m,
                              lambda c, o: "threads=%d" % (c.count(" | ") + 1), oracles={"lin", "setchain", "rguard", "wguard", "guardprobe", "final"}))
         return st
     return f
